@@ -143,7 +143,10 @@ func (l layout) legal() bool {
 	return true
 }
 
-func genLayouts(maxK int) []layout {
+// genLayouts: all legal layouts of <= maxK files, plus (singleK > maxK) the layouts of singleK files in
+// which every file has a single seqnum (all 10^singleK interval sequences, i.e. every key layout and
+// order, without the seqnum-shape dimension).
+func genLayouts(maxK, singleK int) []layout {
 	var out []layout
 	for k := 1; k <= maxK; k++ {
 		rad := make([]int, 2*k)
@@ -161,6 +164,20 @@ func genLayouts(maxK int) []layout {
 			if l.legal() {
 				out = append(out, l)
 			}
+		})
+	}
+	if singleK > maxK {
+		rad := make([]int, singleK)
+		for j := range rad {
+			rad[j] = len(ivals)
+		}
+		vlib.Product(rad, func(d []int) {
+			var l layout
+			l.k = uint8(singleK)
+			for j := 0; j < singleK; j++ {
+				l.iv[j] = uint8(d[j])
+			}
+			out = append(out, l)
 		})
 	}
 	return out
@@ -281,9 +298,13 @@ func observeState(h uint64) {
 
 type errLogger struct{ errs []string }
 
-func (l *errLogger) Infof(format string, args ...interface{})  {}
-func (l *errLogger) Errorf(format string, args ...interface{}) { l.errs = append(l.errs, fmt.Sprintf(format, args...)) }
-func (l *errLogger) Fatalf(format string, args ...interface{}) { l.errs = append(l.errs, "FATAL "+fmt.Sprintf(format, args...)) }
+func (l *errLogger) Infof(format string, args ...interface{}) {}
+func (l *errLogger) Errorf(format string, args ...interface{}) {
+	l.errs = append(l.errs, fmt.Sprintf(format, args...))
+}
+func (l *errLogger) Fatalf(format string, args ...interface{}) {
+	l.errs = append(l.errs, "FATAL "+fmt.Sprintf(format, args...))
+}
 
 // ---------------------------------------------------------------------------------------------
 // runner: all checks for one file set
@@ -308,6 +329,7 @@ type runner struct {
 	stNext   uint32 // != 0: the first compaction (this file mask) has been started, checking the next pick
 	reported map[string]bool
 	nViol    int
+	nFinding int // violations of class findingClass (included in nViol)
 
 	evals, trans int
 	ccOK, ccErr  int64
@@ -336,8 +358,13 @@ func (r *runner) describeFiles() string {
 	return sb.String()
 }
 
+const findingClass = "base-pick-includes-intra-compacting-file"
+
 func (r *runner) viol(class, info string) {
 	r.nViol++
+	if class == findingClass {
+		r.nFinding++
+	}
 	if r.reported[class] {
 		return
 	}
@@ -588,8 +615,12 @@ func (r *runner) checkIncremental() {
 // to InitCompactingFileInfo and whether (marks, menu) is a consistent state: files compacting to Lbase
 // form key-connected groups (one compaction each); the compaction's bounds are the hull of its L0
 // files and of the Lbase files that hull overlaps, all of which must then be compacting themselves.
-func (r *runner) deriveInProgress(menu []baseFile) ([]ipc, bool) {
+// With single=true all files compacting to Lbase belong to ONE compaction (ExtendL0ForBaseCompactionTo
+// adds key-disjoint files to a compaction); the second result is then the number of key-connected
+// groups that were merged (the variant is only distinct when it is > 1).
+func (r *runner) deriveInProgress(menu []baseFile, single bool) ([]ipc, int, bool) {
 	var out []ipc
+	groups := 0
 	for _, kind := range []int{1, 2} {
 		var buf [4]*mfile
 		fs := buf[:0]
@@ -606,7 +637,10 @@ func (r *runner) deriveInProgress(menu []baseFile) ([]ipc, bool) {
 		for i := 0; i < len(fs); {
 			lo, hi := fs[i].x, fs[i].y
 			j := i + 1
-			for j < len(fs) && fs[j].x <= hi {
+			for j < len(fs) && (fs[j].x <= hi || (single && kind == 1)) {
+				if fs[j].x > hi {
+					groups++
+				}
 				if fs[j].y > hi {
 					hi = fs[j].y
 				}
@@ -614,11 +648,12 @@ func (r *runner) deriveInProgress(menu []baseFile) ([]ipc, bool) {
 			}
 			i = j
 			if kind == 1 {
+				groups++
 				elo, ehi := lo, hi
 				for _, b := range menu {
 					if overlap(lo, hi, b.x, b.y) {
 						if !b.compacting {
-							return nil, false
+							return nil, 0, false
 						}
 						if b.x < elo {
 							elo = b.x
@@ -633,7 +668,7 @@ func (r *runner) deriveInProgress(menu []baseFile) ([]ipc, bool) {
 			out = append(out, ipc{lo, hi, kind == 2})
 		}
 	}
-	return out, true
+	return out, groups, true
 }
 
 func toL0Compactions(in []ipc) []manifest.L0Compaction {
@@ -687,6 +722,30 @@ func (r *runner) hull(mask uint32) (int, int) {
 	return lo, hi
 }
 
+// stackedInSeedInterval recognises the shape of the finding "PickBaseCompaction stacks the files of the
+// seed interval without looking at their compaction state": on some key of p the oldest file is picked
+// and idle (the seed) and everything between it and p is picked as well.
+func (r *runner) stackedInSeedInterval(mask uint32, p *mfile) bool {
+	for u := p.x; u <= p.y; u++ {
+		var oldest *mfile
+		all := true
+		for _, f := range r.files { // oldest first
+			if f.x <= u && u <= f.y && f.older(p) {
+				if oldest == nil {
+					oldest = f
+				}
+				if mask&(1<<uint(f.idx)) == 0 {
+					all = false
+				}
+			}
+		}
+		if oldest != nil && all && oldest.mark == 0 {
+			return true
+		}
+	}
+	return false
+}
+
 func (r *runner) maxStack(mask uint32) int {
 	best := 0
 	for u := 0; u < 4; u++ {
@@ -732,11 +791,11 @@ func (r *runner) checkPick(pfx string, intra bool, lcf *manifest.L0CompactionFil
 			continue
 		}
 		if p.mark != 0 || p.meta.IsCompacting() {
-			if !intra && p.mark == 2 {
+			if !intra && p.mark == 2 && r.stackedInSeedInterval(mask, p) {
 				// own class (no prefix): baseCompactionUsingSeed stacks the files of the seed interval
 				// without looking at their compaction state; only files of LOWER sublevels go through
 				// extendFiles, which does look.
-				r.viol("base-pick-includes-intra-compacting-file", fmt.Sprintf("%sbase pick %s includes %s which is already compacting (intra-L0)", pfx, r.maskStr(mask), p))
+				r.viol(findingClass, fmt.Sprintf("%sbase pick %s includes %s which is already compacting (intra-L0)", pfx, r.maskStr(mask), p))
 			} else {
 				r.viol(pfx+"picked-compacting-file", fmt.Sprintf("pick %s includes %s which is already compacting", r.maskStr(mask), p))
 			}
@@ -931,11 +990,22 @@ func (r *runner) startAndRepick(intra bool, lcf *manifest.L0CompactionFiles, ms 
 
 // check 3, Lbase picks for one (marking, menu)
 func (r *runner) checkBasePicks(mi int) {
+	r.checkBasePicksGrouped(mi, false)
+	r.checkBasePicksGrouped(mi, true)
+}
+
+func (r *runner) checkBasePicksGrouped(mi int, single bool) {
 	ms := r.newMenuState(mi)
-	inprog, ok := r.deriveInProgress(ms.files)
+	inprog, groups, ok := r.deriveInProgress(ms.files, single)
+	if single && groups < 2 {
+		return // same state as single=false
+	}
 	if !ok {
 		r.out("menu-inconsistent-with-marking:skipped")
 		return
+	}
+	if single {
+		r.out("marking-as-one-multi-range-base-compaction:checked")
 	}
 	r.menu = mi
 	r.inprog = inprog
@@ -1055,7 +1125,7 @@ func (r *runner) checkBasePicks(mi int) {
 func (r *runner) checkIntraPicks() {
 	r.menu = 0
 	ms := r.newMenuState(0)
-	inprog, _ := r.deriveInProgress(nil)
+	inprog, _, _ := r.deriveInProgress(nil, false)
 	r.inprog = inprog
 	l0c := toL0Compactions(inprog)
 	r.o.InitCompactingFileInfo(l0c)
@@ -1160,6 +1230,7 @@ func (r *runner) run() {
 	})
 	r.marks = nil
 	r.menu = -1
+	r.setMarks(make([]int, k))
 }
 
 func runFiles(c *vlib.Ctx, specs []FileSpec, only *Case, verbose bool) *runner {
@@ -1192,11 +1263,11 @@ func TestCheck(t *testing.T) {
 			fmt.Printf("replay: %d violations\n", r.nViol)
 			return
 		}
-		maxK := 3
+		maxK, singleK := 3, 4
 		if c.Thorough() {
-			maxK = 4
+			maxK, singleK = 4, 0
 		}
-		layouts := genLayouts(maxK)
+		layouts := genLayouts(maxK, singleK)
 		perK := map[int]int{}
 		nested := 0
 		for _, l := range layouts {
@@ -1217,13 +1288,20 @@ func TestCheck(t *testing.T) {
 			if r.nontrivial {
 				c.Nontrivial(vlib.Hash("layout", i))
 			}
-			if r.nViol == 0 {
+			switch {
+			case r.nViol == 0:
 				c.Outcome("layout:all-checks-pass")
-			} else {
+			case r.nViol == r.nFinding:
+				c.Outcome("layout:all-pass-except-class-" + findingClass)
+			default:
 				c.Outcome("layout:VIOLATION")
 			}
-			if i%4001 == 17 {
-				c.Sample(map[string]any{"files": specs, "describe": r.describeFiles()})
+			if i%3001 == 17 {
+				sub := make([]int, len(r.files))
+				for j, f := range r.files {
+					sub[j] = r.o.SubLevelOf(f.meta)
+				}
+				c.Sample(map[string]any{"files": specs, "describe": r.describeFiles(), "sublevels": sub, "violations_of_class_" + findingClass: r.nFinding, "other_violations": r.nViol - r.nFinding})
 			}
 		})
 		for i := range stateShards {
@@ -1237,7 +1315,10 @@ func TestCheck(t *testing.T) {
 		if len(ccExamples) > 0 {
 			c.Note("pebble_checkCompaction_disagreements", ccExamples)
 		}
-		c.Note("scope", fmt.Sprintf("file sets of <=%d L0 files: %d legal layouts (by size %v, %d with nested seqnum ranges); per layout: all 2^(k-1) batch splits + all k! insertion orders; all 3^k markings (base markings downward closed) x %d Lbase menus x min depths; intra-L0 thresholds: all legal",
+		if singleK > maxK {
+			c.Note("scope_extra", fmt.Sprintf("plus all %d sets of %d files in which every file has a single seqnum", perK[singleK], singleK))
+		}
+		c.Note("scope", fmt.Sprintf("file sets of <=%d L0 files with every legal seqnum shape: %d layouts in total (by size %v, %d with nested seqnum ranges); per layout: all 2^(k-1) batch splits + all k! insertion orders; all 3^k markings (base markings downward closed) x %d Lbase menus x min depths; intra-L0 thresholds: all legal",
 			maxK, len(layouts), perK, nested, len(baseMenus)))
 	})
 }
